@@ -95,20 +95,32 @@ package loadbalancer
 //@   guards IsHealthy, UnhealthyUntil
 //@   guarantee no_early_readmission: !old(b.IsHealthy) && b.IsHealthy ==> now() > old(b.UnhealthyUntil)
 
+// C04 "the admin and metrics endpoints never report an ejected backend as healthy", also when an expiry check
+// races a fresh ejection: the flag (what the admin API reports) and its mirror in the metrics (what /metrics and
+// /health report) must change inside one critical section of Backend.Mutex - whenever that lock is released the
+// two agree. (Updating the mirror after the unlock lets a slower "healthy" update overwrite a newer ejection.)
+//@ ghost var mirrorAgreedAtEveryRelease Bool
+//@ pred mirrorAgrees(lb *LoadBalancer, b *Backend) := has_bm(lb.metricsCollector, b.Name) && mirrorOf(lb, b) == b.IsHealthy
 //@ func (*LoadBalancer).MarkBackendUnhealthy
 //@   props C02 C04 C12 C03
 //@   mode seq, mon
+//@   ghost entry :: mirrorAgreedAtEveryRelease := true
+//@   ghost release Mutex :: mirrorAgreedAtEveryRelease := mirrorAgreedAtEveryRelease && mirrorAgrees(lb, backend)
+//@   ensures seq: flag_and_mirror_change_in_one_critical_section: mirrorAgreedAtEveryRelease
 //@   requires backend != nil && unlocked(backend.Mutex) && lbOK(lb)
 //@   requires unlocked(lb.metricsCollector.metrics.mutex) && bmCellsOK(lb.metricsCollector)
 //@   ensures seq: ejected: !backend.IsHealthy && backend.UnhealthyUntil == now() + duration
 //@   ensures mirror: has_bm(lb.metricsCollector, backend.Name) && !mirrorOf(lb, backend)
 //@   ensures cells: bmCellsOK(lb.metricsCollector)
 //@   ensures seq: cells_stay: bmKept(lb.metricsCollector)
-//@   modifies backend.IsHealthy, backend.UnhealthyUntil, mapof(lb.metricsCollector.metrics.BackendMetrics), metrics.BackendMetrics.IsHealthy, metrics.BackendMetrics.LastHealthCheck
+//@   modifies backend.IsHealthy, backend.UnhealthyUntil, mapof(lb.metricsCollector.metrics.BackendMetrics), metrics.BackendMetrics.IsHealthy, metrics.BackendMetrics.LastHealthCheck, mirrorAgreedAtEveryRelease
 
 //@ func (*LoadBalancer).IsBackendHealthy
 //@   props C02 C04 C12 C03
 //@   mode seq, mon
+//@   ghost entry :: mirrorAgreedAtEveryRelease := true
+//@   ghost release Mutex :: mirrorAgreedAtEveryRelease := mirrorAgreedAtEveryRelease && mirrorAgrees(lb, backend)
+//@   ensures seq: flag_and_mirror_change_in_one_critical_section: old(mirrorAgrees(lb, backend)) ==> mirrorAgreedAtEveryRelease
 //@   requires backend != nil && unlocked(backend.Mutex) && lbOK(lb)
 //@   requires unlocked(lb.metricsCollector.metrics.mutex) && bmCellsOK(lb.metricsCollector)
 //@   ensures seq: only_eligible: result ==> backend.IsHealthy && (old(backend.IsHealthy) || now() > old(backend.UnhealthyUntil))
@@ -117,12 +129,15 @@ package loadbalancer
 //@   ensures seq: mirror: backend.IsHealthy != old(backend.IsHealthy) ==> has_bm(lb.metricsCollector, backend.Name) && mirrorOf(lb, backend) == backend.IsHealthy
 //@   ensures cells: bmCellsOK(lb.metricsCollector)
 //@   ensures clock: now() >= old(now())
-//@   modifies backend.IsHealthy, mapof(lb.metricsCollector.metrics.BackendMetrics), metrics.BackendMetrics.IsHealthy, metrics.BackendMetrics.LastHealthCheck
+//@   modifies backend.IsHealthy, mapof(lb.metricsCollector.metrics.BackendMetrics), metrics.BackendMetrics.IsHealthy, metrics.BackendMetrics.LastHealthCheck, mirrorAgreedAtEveryRelease
 
 // ---- probes
 //@ func (*LoadBalancer).processHealthCheckResponse
 //@   props C04 C12
 //@   mode seq, mon
+//@   ghost entry :: mirrorAgreedAtEveryRelease := true
+//@   ghost release Mutex :: mirrorAgreedAtEveryRelease := mirrorAgreedAtEveryRelease && mirrorAgrees(lb, backend)
+//@   ensures seq: flag_and_mirror_change_in_one_critical_section: old(mirrorAgrees(lb, backend)) ==> mirrorAgreedAtEveryRelease
 //@   requires backend != nil && resp != nil && unlocked(backend.Mutex) && lbOK(lb)
 //@   requires unlocked(lb.metricsCollector.metrics.mutex) && bmCellsOK(lb.metricsCollector)
 //@   ensures seq: failed_probe_ejects: resp.StatusCode != 200 ==> !backend.IsHealthy && backend.UnhealthyUntil == now() + lb.healthChecks.passiveTimeout
@@ -130,7 +145,7 @@ package loadbalancer
 //@   ensures seq: ok_probe_readmits_after_window: resp.StatusCode == 200 && old(now()) > old(backend.UnhealthyUntil) ==> backend.IsHealthy
 //@   ensures seq: mirror: backend.IsHealthy != old(backend.IsHealthy) || resp.StatusCode != 200 ==> has_bm(lb.metricsCollector, backend.Name) && mirrorOf(lb, backend) == backend.IsHealthy
 //@   ensures cells: bmCellsOK(lb.metricsCollector)
-//@   modifies backend.IsHealthy, backend.UnhealthyUntil, mapof(lb.metricsCollector.metrics.BackendMetrics), metrics.BackendMetrics.IsHealthy, metrics.BackendMetrics.LastHealthCheck
+//@   modifies backend.IsHealthy, backend.UnhealthyUntil, mapof(lb.metricsCollector.metrics.BackendMetrics), metrics.BackendMetrics.IsHealthy, metrics.BackendMetrics.LastHealthCheck, mirrorAgreedAtEveryRelease
 
 //@ func (*LoadBalancer).handleHealthCheckFailure
 //@   props C04 C12
@@ -139,7 +154,7 @@ package loadbalancer
 //@   ensures unreachable_ejects: !backend.IsHealthy && backend.UnhealthyUntil == now() + lb.healthChecks.passiveTimeout
 //@   ensures mirror: has_bm(lb.metricsCollector, backend.Name) && !mirrorOf(lb, backend)
 //@   ensures cells: bmCellsOK(lb.metricsCollector)
-//@   modifies backend.IsHealthy, backend.UnhealthyUntil, mapof(lb.metricsCollector.metrics.BackendMetrics), metrics.BackendMetrics.IsHealthy, metrics.BackendMetrics.LastHealthCheck
+//@   modifies backend.IsHealthy, backend.UnhealthyUntil, mapof(lb.metricsCollector.metrics.BackendMetrics), metrics.BackendMetrics.IsHealthy, metrics.BackendMetrics.LastHealthCheck, mirrorAgreedAtEveryRelease
 
 // ---- passive ejection: the counter of failed responses per backend name
 //@ pred failCount(lb *LoadBalancer, name string) int := has(lb.healthChecks.unhealthyBackends, name) ? lb.healthChecks.unhealthyBackends[name] : 0
